@@ -1540,9 +1540,18 @@ class GeoboxTiles:
         xy_chunks_with_data = list(self.tiles(src_footprint))
         deps: Dict[Tuple[int, int], List[Tuple[int, int]]] = {}
 
+        same_crs = src.base.crs == self.base.crs
         for idx in xy_chunks_with_data:
             geobox = self[idx]
-            deps[idx] = list(src.tiles(geobox.extent))
+            extent = geobox.extent
+            if not same_crs:
+                # sides of a tile are straight lines in its own CRS only
+                extent = extent.to_crs(
+                    src.base.crs,
+                    resolution=geobox._reproject_resolution(16),
+                    check_and_fix=True,
+                )
+            deps[idx] = list(src.tiles(extent))
 
         return deps
 
